@@ -1,5 +1,6 @@
 import Oracle.Util
 import MobiusModel.Board
+import MobiusModel.Announce
 /-! Oracle handlers for C19 (model functions exposed on the line protocol). -/
 namespace Oracle
 open Mobius Mobius.Board
@@ -31,7 +32,29 @@ def parseRaw (s : String) : Option (Nat × Raw) :=
   | [t, "w", h] => some (num t, .write (hexb h))
   | _ => none
 
+def parseAEv (s : String) : Option Announce.Ev :=
+  match s.splitOn ":" with
+  | ["c", n] => some (.connect (num n))
+  | ["d", n] => some (.disconnect (num n))
+  | ["l"] => some .list
+  | ["s", p] => some (.snap (num p))
+  | ["v", p] => some (.deliver (num p))
+  | _ => none
+
 def c19Handlers : List (String × Handler) := [
+  -- c19announce <id,id,…|-> <event>…  → the announcements handed to the outbox, in order, as `<client>:<post>`, then
+  --   ` | ` and for every post snapped the number of audience members not yet addressed (`<post>=<n>`)
+  ("c19announce", fun (a : List String) => match a with
+    | cl :: evs =>
+      match evs.mapM parseAEv with
+      | some l =>
+        let clients := if cl == "-" then [] else (cl.splitOn ",").map num
+        let s := Announce.run ⟨clients, fun _ => [], []⟩ l
+        let posts := (l.filterMap fun e => match e with | .snap p => some p | _ => none).eraseDups
+        " ".intercalate (s.inbox.map fun (c, p) => s!"{c}:{p}") ++ " | " ++
+          " ".intercalate (posts.map fun p => s!"{p}={(s.pending p).length}")
+      | none => "bad-op"
+    | _ => "bad-op"),
   -- c19post <template> <name> <date> <body>  → the post text
   ("c19post", fun (a : List String) => match a with
     | [t, n, d, b] => toHex (formatPost (hexb t) (hexb n) (hexb d) (hexb b))
